@@ -157,7 +157,7 @@ def run(tier, replay=None):
             jobs.append({'id': len(jobs), 'seq': seq, 'seed': rng.randrange(1 << 30), 'big': 0, 'pred': None})
         for _ in range(8 if thorough else 3):
             seq = ['cfg'] + [rng.choice(classes) for _ in range(10)]
-            jobs.append({'id': len(jobs), 'seq': seq, 'seed': rng.randrange(1 << 30), 'big': rng.choice([1 << 20, 3 << 20, 5 << 20]), 'pred': None})
+            jobs.append({'id': len(jobs), 'seq': seq, 'seed': rng.randrange(1 << 30), 'big': rng.choice([2 << 20, 3 << 20, 5 << 20]), 'pred': None})
         results = run_workers([{k: v for k, v in j.items() if k != 'pred'} for j in jobs], projdir)
         byid = {r['id']: r for r in results}
         cases = []
